@@ -244,6 +244,17 @@ def run(ctx):
                          + ": live and stored counters fall behind the peer's, and after the next Logon a ResendRequest goes out although nothing was lost",
                          loc(repo.func("AsyncFIXConnection._process_message")))
 
+    # ... and on *every* way out of the dispatcher - also when a handler or an application hook raised (the finally epilogue counts the message)
+    for st0 in ("ACTIVE", "RESENDREQ_AWAITING"):
+        for kind in absint.KINDS:
+            if kind in ("LOGON", "LOGOUT"):
+                continue  # Logout: a raising on_logout hook aborts the disconnect as well - noted in DESIGN, not claimed
+            bad = next((o for o in outs if o[1].state0 == st0 and o[1].kind == kind and o[1].ord == "EQ" and o[1].integ == "ok" and o[1].nin not in ("ACCEPT", "NEWSEQ")), None)
+            ctx.instance("C09.accepted-is-counted", f"{st0},{kind},EQ[every exit]", bad is None,
+                         f"a dispatch of an inbound {kind} at the expected number in state {st0} can end ({bad[0] if bad else ''}) without the counter advance - e.g. when a "
+                         "handler or an application hook raised: the message was acted upon but is expected again, so the peer's next message looks too high",
+                         loc(repo.func("AsyncFIXConnection._process_message")), list(bad[3][-10:]) if bad else [])
+
 
 def _paths(g, src, dst, avoid):
     avoid = set(avoid)
